@@ -5,7 +5,7 @@ from .gen import MAX, layout_prefix, layouts, idx_args
 from .engine import Line, ledger_check, leak_check, proj_behaviour, proj_physical, strip_slots
 
 
-def ns_for(tier, quick=(0, 1, 2, 3, 4), thorough=(0, 1, 2, 3, 4, 5, 6)):
+def ns_for(tier, quick=(0, 1, 2, 3, 4), thorough=(0, 1, 2, 3, 4, 5, 6, 7, 8)):
     return thorough if tier == "thorough" else quick
 
 
@@ -218,14 +218,14 @@ def cases_C01(tier, seed):
         for op in gen.mutator_ops(n, sz):
             cases.append(with_tail(pre, [op]))
     if tier == "thorough":
-        for n, st, sz in all_layouts((1, 2, 3)):
+        for n, st, sz in all_layouts((1, 2, 3, 4)):
             pre = layout_prefix(n, st, sz)
             ops = [o for o in gen.mutator_ops(n, sz) if not o.startswith("swap ")]
             for a in ops:
-                for b in ops[::3]:
+                for b in ops[::2]:
                     cases.append(with_tail(pre, [a, b]))
     rng = random.Random(seed)
-    nh = 4000 if tier == "thorough" else 400
+    nh = 20000 if tier == "thorough" else 400
     for k in range(nh):
         n = rng.choice([5, 7, 8, 16] if tier == "quick" else [5, 6, 7, 8, 16, 64])
         cases.append(gen.rand_history(rng, n, rng.randrange(5, 40)))
@@ -277,10 +277,10 @@ JUNKS = ["decoy", "00", "ff", "5a", "stale"]
 def cases_C04(tier, seed):
     """each base case is emitted once per junk fill (same lines otherwise)"""
     cases = []
-    for n, st, sz in all_layouts(ns_for(tier, quick=(1, 2, 3, 4), thorough=(1, 2, 3, 4, 5))):
+    for n, st, sz in all_layouts(ns_for(tier, quick=(1, 2, 3, 4), thorough=(1, 2, 3, 4, 5, 6))):
         pre = layout_prefix(n, st, sz)
         ops = [o for o in gen.mutator_ops(n, sz) if not o.startswith("swap ")]
-        ops += gen.view_ops(n, sz)[:40] + ["eq %d 1 1 2" % min(n, 5), "hash", "debug", "clone", "to_vec",
+        ops += gen.view_ops(n, sz)[:40] + ["eq %d 1 1 2" % n, "hash", "debug", "clone", "to_vec",
                                            "drain u u FB forget", "into_iter FB"]
         ops = ops[::2] if tier == "quick" else ops
         for op in ops:
